@@ -95,3 +95,41 @@ package pubsub
 //@   ensures event: result1 == nil ==> lastret((*TopicEventHandler).pullFromEventLog, 1) && result0 == lastret((*TopicEventHandler).pullFromEventLog, 0)
 //@   ensures error-no-event: result1 != nil ==> calls((*TopicEventHandler).pullFromEventLog) == old(calls((*TopicEventHandler).pullFromEventLog)) || !lastret((*TopicEventHandler).pullFromEventLog, 1)
 //@   ensures released: !held(t.evtLogMx)
+
+// The seeding thunk of Topic.EventHandler (run inside the event loop): the new handler's log
+// starts with one pending Join for every peer currently in the topic's peer map and nothing
+// else, and the handler is registered with the topic - from then on Topic.sendNotification
+// reaches it (C18: applying the returned events from the empty set yields the current peer set).
+//@ func (*Topic).EventHandler$1
+//@   property C18
+//@   requires state: h != nil && h.evtLog != nil && t != nil && t.p != nil && t.evtHandlers != nil
+//@   noframe
+//@   loop 1 invariant seeding: h.evtLog == old(h.evtLog) && h.evtLog != nil &&
+//@        (forall q string :: $visited[q] ==> q in h.evtLog && h.evtLog[q] == PeerJoin) &&
+//@        (forall q string :: q in h.evtLog && !old(q in h.evtLog) ==> $visited[q]) &&
+//@        (forall q string :: has(t.p.topics, t.topic, q) == old(has(t.p.topics, t.topic, q)))
+//@   ensures seeded-with-the-current-peers: forall q string :: old(has(t.p.topics, t.topic, q)) ==> q in h.evtLog && h.evtLog[q] == PeerJoin
+//@   ensures nothing-else-seeded: forall q string :: q in h.evtLog && !old(q in h.evtLog) ==> old(has(t.p.topics, t.topic, q))
+//@   ensures registered: h in t.evtHandlers
+
+// Topic.sendNotification: every handler registered with the topic is told the event exactly once
+// (so that each handler's source-side set follows the topic's peer map), and only those. The
+// precondition is the C18 link: the event alternates for every registered handler, i.e. each
+// handler's source-side set agrees with the peer map as it was before this change. It is ASSUMED
+// at the two places of the event loop that notify (handleIncomingRPC, notifyLeave), where the
+// change of the peer map itself is proved (see there); established by the seeding thunk above.
+//@ func (*Topic).sendNotification
+//@   property C18
+//@   requires kind: evt.Type == PeerJoin || evt.Type == PeerLeave
+//@   requires alternates-for-every-handler: t != nil && t.evtHandlers != nil && (forall h *TopicEventHandler :: h in t.evtHandlers ==> h != nil && (evt.Type == PeerJoin) == !evTruth[h][evt.Peer])
+//@   noframe
+//@   loop 1 invariant told: (forall h *TopicEventHandler :: $visited[h] ==> evTruth[h][evt.Peer] == (evt.Type == PeerJoin)) &&
+//@        (forall h *TopicEventHandler :: !$visited[h] ==> evTruth[h][evt.Peer] == old(evTruth[h][evt.Peer])) &&
+//@        (forall h ref, q string :: q != evt.Peer ==> evTruth[h][q] == old(evTruth[h][q])) &&
+//@        (forall h *TopicEventHandler :: (h in t.evtHandlers) == old(h in t.evtHandlers)) && t.evtHandlers == old(t.evtHandlers) &&
+//@        calls((*TopicEventHandler).sendNotification) - old(calls((*TopicEventHandler).sendNotification)) == $count
+//@   at call (*TopicEventHandler).sendNotification assert the-event: $arg0 == h && $arg1.Type == evt.Type && $arg1.Peer == evt.Peer
+//@   ensures every-handler-told: forall h *TopicEventHandler :: h in t.evtHandlers ==> evTruth[h][evt.Peer] == (evt.Type == PeerJoin)
+//@   ensures nobody-else-told: forall h *TopicEventHandler :: !(h in t.evtHandlers) ==> evTruth[h][evt.Peer] == old(evTruth[h][evt.Peer])
+//@   ensures other-peers-untouched: forall h ref, q string :: q != evt.Peer ==> evTruth[h][q] == old(evTruth[h][q])
+//@   ensures once-each: calls((*TopicEventHandler).sendNotification) - old(calls((*TopicEventHandler).sendNotification)) == len(t.evtHandlers)
